@@ -503,15 +503,17 @@ async def check_direct_sites(ctx, case):
     ctx.set_case("direct-sites", case)
     tlp = E.install()
     rc_keys, fc_keys, hint_keys = case["rc_keys"], case["fc_keys"], case["hint_keys"]
-    contexts = {k: EvaluationContext(scope=f"$.scope[{k}]") for k in rc_keys if rng.random() < 0.5}
+    contexts = {k: f"$.scope[{k}]" for k in rc_keys if rng.random() < 0.5}
+    worlds = []
 
     def factory():
         world = E.World("direct", rc=table_for(rc_keys), fc={k: i % 2 == 0 for i, k in enumerate(fc_keys)}, fc_msg={k: f"E{k}" for k in fc_keys})
+        worlds.append(world)
 
         async def go():
             E.set_world(world)
             text_to_be_evaluated_by_format_constraint.set("text-direct")
-            a = await tlp.rc.evaluate_conditions(list(rc_keys), world.data(), dict(contexts) if contexts else None)
+            a = await tlp.rc.evaluate_conditions(list(rc_keys), world.data(), {k: EvaluationContext(scope=scope) for k, scope in contexts.items()} if contexts else None)
             b = await tlp.fc.evaluate_format_constraints(list(fc_keys))
             c = await tlp.hints.get_hints(list(hint_keys))
             return sorted((k, str(v)) for k, v in a.items()), sorted((k, v.format_constraint_fulfilled, v.error_message) for k, v in b.items()), sorted((k, v.hint) for k, v in c.items())
@@ -540,6 +542,15 @@ async def check_direct_sites(ctx, case):
     ctx.count("direct_site_release_orders", len(seen))
     if contexts:
         ctx.count("direct_site_runs_with_contexts")
+    # every evaluation method was handed the evaluation context given for ITS key (the evaluator's default context for the others)
+    for world in worlds:
+        for key, scope in world.contexts_seen:
+            if rc_keys.count(key) > 1:
+                continue  # both evaluations of the key share ONE context object, which the harness' evaluation method writes to
+            ctx.count("contexts_handed_to_evaluation_methods")
+            if scope != contexts.get(key):
+                ctx.violation("pairing-evaluation-contexts", f"evaluate_conditions({rc_keys}, condition_keys_with_context={contexts}): the evaluation method of key {key} was handed a context with scope {scope!r}, expected {contexts.get(key)!r}")
+                return
 
 
 def gen_case(rng):
